@@ -202,6 +202,16 @@ fn random_tree(rng: &mut Rng) -> Vec<SubGrid> {
         let c0 = if adjacent { k } else { 2 * k - 1 };
         subs.push(SubGrid::random(rng, &format!("SUB{k}"), "ROOT", lat_s + 1.0, lon_w + c0 as f64, 0.25, 5, 5));
     }
+    if rng.chance(0.4) {
+        // cells that are not square: every longitude stretched about the root's west border
+        // (LONG_INC twice, one and a half times or half of LAT_INC; the structure stays the same)
+        let f = *rng.pick(&[2.0, 0.5, 1.5]);
+        for s in subs.iter_mut() {
+            s.lon_w = lon_w + f * (s.lon_w - lon_w);
+            s.dlon *= f;
+            s.lon_e = s.lon_w + s.dlon * (s.cols - 1) as f64;
+        }
+    }
     subs
 }
 
